@@ -175,7 +175,7 @@ pub fn run_vault_histories(ctx: &Ctx, shard: u64, acc: &mut Acc, n_hist: u64, st
 }
 
 pub fn run(ctx: &Ctx) -> (CheckMeta, Acc) {
-    let n_hist = ctx.tier.pick(60, 600);
+    let n_hist = ctx.tier.pick(240, 6000);
     let steps = ctx.tier.pick(80, 200);
     let total = run_shards(ctx, 16, |sh, acc| run_vault_histories(ctx, sh, acc, n_hist, steps));
     let meta = CheckMeta {
